@@ -300,6 +300,7 @@ func (bcR *BlockchainReactor) ReceiveEnvelope(e p2p.Envelope) {
 			event: statusResponseEv,
 			data: bReactorEventData{
 				peerID: e.Src.ID(),
+				base:   msg.Base,
 				height: msg.Height,
 				length: msg.Size(),
 			},
